@@ -61,11 +61,35 @@ class HeapMixin:
     # ---------------------------------------------------------------- facts / obligations
     def fact(self, t):
         """Unconditional truth about the model (heap typing, definitions of fresh symbols)."""
-        if self.qguards:
-            t = z3.Implies(z3.And(self.qguards), t)
-        if self.qvars:
+        if self.qvars and self.mentions(t, self.qvars):
+            if self.qguards:
+                t = z3.Implies(z3.And(self.qguards), t)
             t = z3.ForAll(list(self.qvars), t)
+        elif self.qguards and not self.qvars:
+            t = z3.Implies(z3.And(self.qguards), t)
+        key = t.get_id()
+        if key in self._fact_ids:
+            return
+        self._fact_ids.add(key)
         self.facts.append(t)
+
+    def mentions(self, t, vars_):
+        ids = {v.get_id() for v in vars_}
+        seen = set()
+        stack = [t]
+        while stack:
+            x = stack.pop()
+            i = x.get_id()
+            if i in seen:
+                continue
+            seen.add(i)
+            if i in ids:
+                return True
+            if z3.is_quantifier(x):
+                stack.append(x.body())
+            elif z3.is_app(x):
+                stack.extend(x.children())
+        return False
 
     def fresh(self, name, sort=I):
         """Fresh symbol; inside a quantifier scope it is a Skolem function of the bound variables."""
